@@ -822,3 +822,236 @@ func ruleIndexLoopDeletion(r *Run, rels []string) {
 		o.OK("%d counting loop(s) over a reassignable slice, %d deleting from it; none skips", nLoops, nDel)
 	}
 }
+
+// rulePFAlloc (PF-ALLOC): make([]T, n, c) panics ("len/cap out of range") when the size is
+// negative or too large. Every slice allocation in the evaluation packages takes its size from
+// the length of data that already exists (len/cap of a value, sums, products and minima of
+// those, constants) - never from a number the query or the command line supplies (a topk
+// parameter, a limit), which is unbounded.
+func rulePFAlloc(r *Run, rels []string, floor int) {
+	p := r.P
+	o := r.Ob("PF-ALLOC", "slice allocations", "the length and capacity of every make([]T, ..) derive from the size of existing data, not from a caller-supplied number: no `makeslice: len/cap out of range` panic, no allocation proportional to a query parameter")
+	inScope := map[string]bool{}
+	for _, rel := range rels {
+		inScope[modPath+"/"+rel] = true
+	}
+	var sized func(v ssa.Value, depth int) bool
+	sized = func(v ssa.Value, depth int) bool {
+		if v == nil || depth > 10 {
+			return false
+		}
+		switch x := v.(type) {
+		case *ssa.Const:
+			return true
+		case *ssa.Convert:
+			return sized(x.X, depth+1)
+		case *ssa.ChangeType:
+			return sized(x.X, depth+1)
+		case *ssa.Call:
+			if bi, ok := x.Call.Value.(*ssa.Builtin); ok {
+				switch bi.Name() {
+				case "len", "cap":
+					return true
+				case "min":
+					for _, a := range x.Call.Args {
+						if sized(a, depth+1) {
+							return true
+						}
+					}
+				}
+			}
+			// Len() of a container
+			if callee := staticCallee(x); callee != nil && (callee.Name() == "Len" || callee.Name() == "NumField") {
+				return true
+			}
+			return false
+		case *ssa.BinOp:
+			switch x.Op {
+			case token.ADD, token.MUL, token.SUB:
+				return sized(x.X, depth+1) && sized(x.Y, depth+1)
+			case token.QUO, token.REM, token.SHR:
+				return sized(x.X, depth+1)
+			}
+			return false
+		case *ssa.Phi:
+			for _, e := range x.Edges {
+				if e == v {
+					continue
+				}
+				if !sized(e, depth+1) {
+					return false
+				}
+			}
+			return true
+		case *ssa.UnOp:
+			if x.Op == token.MUL {
+				if al, ok := x.X.(*ssa.Alloc); ok {
+					sts := storesTo(al)
+					if len(sts) == 0 {
+						return true
+					}
+					for _, st := range sts {
+						// counters: n = n + 1
+						if b, ok := st.Val.(*ssa.BinOp); ok && b.Op == token.ADD {
+							if _, isC := b.Y.(*ssa.Const); isC {
+								continue
+							}
+						}
+						if !sized(st.Val, depth+1) {
+							return false
+						}
+					}
+					return true
+				}
+			}
+		}
+		return false
+	}
+	n := 0
+	bad := false
+	for _, fn := range p.SrcFuncs() {
+		pk := pkgOfFunc(fn)
+		if pk == nil || !inScope[pk.Pkg.Path()] {
+			continue
+		}
+		allInstrs(fn, func(in ssa.Instruction) {
+			ms, ok := in.(*ssa.MakeSlice)
+			if !ok {
+				return
+			}
+			n++
+			for _, sz := range []ssa.Value{ms.Len, ms.Cap} {
+				if !sized(sz, 0) {
+					bad = true
+					o.Fail(r.pos(ms.Pos()), "%s allocates a slice of size %s, which is not derived from the size of existing data", shortFuncName(fn), describe(sz, 1))
+					return
+				}
+			}
+		})
+	}
+	if n < floor {
+		bad = true
+		o.Fail("-", "only %d slice allocation(s) found, expected at least %d", n, floor)
+	}
+	if !bad {
+		o.OK("%d slice allocation(s); every size derives from len/cap of existing data or a constant", n)
+	}
+}
+
+// ruleOffloadProvenance (LP-OFFLOAD): what the engine hands to the storage as stream-selector
+// matchers are exactly (a subset of) the matchers of the query's selector; what it hands over
+// as line filters are line-filter stages. The storage evaluates selector matchers against the
+// stream's own (container) labels only, so a label filter of the pipeline, which speaks about
+// labels of the record or of a parser stage, must never travel as a selector matcher.
+func ruleOffloadProvenance(r *Run) {
+	p := r.P
+	fn := p.Func(enginePkg, "extractQueryConditions")
+	o := r.Ob("LP-OFFLOAD", "extractQueryConditions provenance", "selector matchers offloaded to the storage are elements of the selector's own matcher list; offloaded line filters are line-filter stages; nothing else of the pipeline is offloaded")
+	if fn == nil {
+		o.Fail("-", "function not found")
+		return
+	}
+	var sel *ssa.Parameter
+	for _, q := range fn.Params {
+		if st := derefStruct(q.Type()); st != nil {
+			for i := 0; i < st.NumFields(); i++ {
+				if canonName(st.Field(i)) == "Matchers" {
+					sel = q
+				}
+			}
+		}
+	}
+	if sel == nil {
+		o.Undecide(r.pos(fn.Pos()), "selector parameter not found")
+		return
+	}
+	grp := funcGroup(fn)
+	// elements appended by append(x, e...) with a literal argument list
+	appended := func(c *ssa.Call) []ssa.Value {
+		if !isAppend(c) || len(c.Call.Args) != 2 {
+			return nil
+		}
+		sl, ok := c.Call.Args[1].(*ssa.Slice)
+		if !ok {
+			return []ssa.Value{c.Call.Args[1]}
+		}
+		al, ok := sl.X.(*ssa.Alloc)
+		if !ok {
+			return []ssa.Value{c.Call.Args[1]}
+		}
+		var out []ssa.Value
+		for _, ref := range *al.Referrers() {
+			if ia, ok := ref.(*ssa.IndexAddr); ok {
+				for _, st := range storesTo(ia) {
+					out = append(out, st.Val)
+				}
+			}
+		}
+		return out
+	}
+	nLabels, nLine := 0, 0
+	bad := false
+	for _, g := range grp {
+		allInstrs(g, func(in ssa.Instruction) {
+			st, ok := in.(*ssa.Store)
+			if !ok {
+				return
+			}
+			f, base, ok := fieldNameOf(st.Addr)
+			if !ok || (f != "Labels" && f != "Line") || typeKey(derefType(base.Type())) != "SelectLogsParams" {
+				return
+			}
+			c, ok := st.Val.(*ssa.Call)
+			if !ok {
+				bad = true
+				o.Fail(r.pos(st.Pos()), "params.%s is set to %s, not appended to", f, describe(st.Val, 0))
+				return
+			}
+			for _, e := range appended(c) {
+				e = originValueIn(stripTypeOnly(e), grp)
+				switch f {
+				case "Labels":
+					nLabels++
+					// *(&sel.Matchers[i]) : an element of the selector's matcher list
+					okSrc := false
+					if u, ok := e.(*ssa.UnOp); ok && u.Op == token.MUL {
+						if ia, ok := u.X.(*ssa.IndexAddr); ok {
+							if mf, mb, ok := loadOfField(ia.X); ok && mf == "Matchers" {
+								if root := originValueIn(mb, grp); root == ssa.Value(sel) {
+									okSrc = true
+								} else if al, ok := mb.(*ssa.Alloc); ok {
+									for _, s2 := range storesTo(al) {
+										if s2.Val == ssa.Value(sel) {
+											okSrc = true
+										}
+									}
+								}
+							}
+						}
+					}
+					if !okSrc {
+						bad = true
+						o.Fail(r.pos(st.Pos()), "%s is offloaded as a stream-selector matcher although it is not one of the selector's matchers: the storage tests it against the container's labels only", describe(e, 1))
+					}
+				case "Line":
+					nLine++
+					okSrc := false
+					if u, ok := e.(*ssa.UnOp); ok && u.Op == token.MUL && typeKey(u.Type()) == "LineFilter" {
+						okSrc = true
+					}
+					if !okSrc {
+						bad = true
+						o.Fail(r.pos(st.Pos()), "%s is offloaded as a line filter although it is not a line-filter stage", describe(e, 1))
+					}
+				}
+			}
+		})
+	}
+	if nLabels == 0 || nLine == 0 {
+		bad = true
+		o.Fail(r.pos(fn.Pos()), "offload sites found: selector matchers=%d, line filters=%d (expected both)", nLabels, nLine)
+	}
+	if !bad {
+		o.OK("%d selector-matcher offload(s) from sel.Matchers, %d line-filter offload(s) from *LineFilter stages", nLabels, nLine).At(r.pos(fn.Pos()))
+	}
+}
